@@ -203,11 +203,11 @@ Proof.
   injection H as <-. split; exact I.
 Qed.
 
-Lemma int_or_float_good : forall z f, good (int_or_float z f).
+Lemma int_or_float_good : forall z f v, int_or_float z f = Ok v -> good v.
 Proof.
-  intros z f. unfold int_or_float. destruct (in_i64 z) eqn:E.
-  - apply good_int. exact E.
-  - apply from_float_good.
+  intros z f v. unfold int_or_float. destruct (in_i64 z) eqn:E.
+  - intros H; injection H as <-. apply good_int. exact E.
+  - pose proof (from_float_good f) as Hg. destruct (from_float f); intros H; try discriminate H; injection H as <-; exact Hg.
 Qed.
 
 Ltac arith_case H :=
@@ -215,8 +215,9 @@ Ltac arith_case H :=
     [ exact (binary_op_good _ _ _ _ H)
     | exact (mk_dur_good _ _ H)
     | exact (mk_date_good _ _ H)
+    | exact (int_or_float_good _ _ _ H)
     | discriminate H
-    | injection H as <-; first [ apply from_float_good | apply int_or_float_good | split; exact I ] ].
+    | injection H as <-; first [ apply from_float_good | split; exact I ] ].
 
 Lemma vadd_typed_good : forall l r v, vadd_typed l r = Ok v -> good v.
 Proof. intros l r v H. destruct l, r; cbn [vadd_typed] in H; arith_case H. Qed.
@@ -462,7 +463,8 @@ Proof. cbn [normalised]. unfold norm_float. vm_compute. intros H. discriminate H
 
 (** * 7. the operations at the i64 boundary *)
 
-Example vsub_min_1 : vsub (VInt i64_min) (VInt 1) = Ok (VInt i64_min).
+(* since fix 9eb768d: the result would round to the integer i64::MIN, so the row is an error *)
+Example vsub_min_1 : vsub (VInt i64_min) (VInt 1) = Err.
 Proof. vm_compute. reflexivity. Qed.
 
 Example vadd_max_1 :
